@@ -4,37 +4,16 @@ import json, os
 HERE = os.path.dirname(os.path.dirname(os.path.abspath(__file__)))
 PROPS = [json.loads(l)['id'] for l in open(os.path.join(HERE, 'properties.jsonl'))]
 
-CLAIMED = {
- 'C04': dict(
-   level='proof',
-   text='Lean 4 theorems for every expression, n and width >= 1: eval_iff_C / eval_fails_iff / eval_error_kinds / eval_value_range (the Evaluator regenerated '
-        'from lib/intexpr.py by py2lean computes exactly lazy C evaluation over Z under the all-intermediate-results-in-range side condition, and fails only with '
-        'overflow or division by zero otherwise); grammar_pin (the lexer rules, precedence ladder, productions and operator tables handed to rply, dumped from the '
-        'live objects each run, are plural.y\'s - by decide); parse_sound (the lexer + recursive-descent model, which corresponds with the real rply parser on all '
-        'token strings of length <= 4/5 and on grammar-directed strings, only accepts what the stratified C grammar derives, with that AST). Completeness of the '
-        'parser model is not yet proved: that direction rests on the correspondence and on the reference-parser falsifier.',
-   design='§6 C04',
-   note='Trusted: Lean kernel, standard axioms; py2lean + grammar dump; rply LALR construction is NOT modelled (tie = correspondence on the stated string sets); '
-        'Spec.mathEval, Spec.D, Spec.PluralY are my reading of ISO C / plural.y.',
-   technique='Lean 4 induction over translator-generated evaluator vs reference semantics; decide-pin of dumped grammar; RD-parser soundness proof; exhaustive small-string correspondence with rply'),
- 'C05': dict(
-   level='proof',
-   text='Lean 4 theorems codomain_sound / codomain_none_fails / codomain_nocrash / codomain_interval_wf, proved by structural induction '
-        'for every expression, every width and every n, about the Evaluator and CodomainEvaluator that the py2lean translator regenerates '
-        'from lib/intexpr.py on every run; a source change that breaks soundness breaks an induction case in the kernel, and the falsifier '
-        'then evaluates the real code at all n < 2^b (b <= 5) to produce the failing input.',
-   design='§6 C05',
-   note='Trusted: Lean kernel; axioms propext/Classical.choice/Quot.sound only; the py2lean translator (validated each run by the '
-        'plural-eval/plural-codomain correspondence streams on the real parser\'s ASTs); the 3-line glue (1 << bits).',
-   technique='Lean 4 structural induction over translator-generated evaluators + differential correspondence + exhaustive small-width falsifier'),
- 'C06': dict(
-   level='proof',
-   text='Lean 4 theorems period_sound / period_nocrash / gcd_correct for every expression, width and n, about the PeriodEvaluator, gcd loop and '
-        'lcm fold regenerated from lib/intexpr.py on every run (the gcd loop is proved to terminate within the declared variant).',
-   design='§6 C06',
-   note='Trusted: Lean kernel; standard axioms only; py2lean translator (validated each run by plural-period/plural-eval/gcd-lcm streams); glue (1 << bits).',
-   technique='Lean 4 induction (periodicity lemmas, gcd/lcm divisibility) over translator-generated code + correspondence + exhaustive small-width falsifier'),
-}
+# one file per claimed property: tools/manifest.d/<id>.json with keys level, text, design, note, technique
+CLAIMED = {}
+for f in sorted(os.listdir(os.path.join(HERE, 'tools', 'manifest.d'))):
+    if f.endswith('.json'):
+        CLAIMED[f[:-5]] = json.load(open(os.path.join(HERE, 'tools', 'manifest.d', f)))
+
+NOT_CLAIMED_REASON = {}
+_p = os.path.join(HERE, 'tools', 'not_applicable.json')
+if os.path.exists(_p):
+    NOT_CLAIMED_REASON = json.load(open(_p))
 
 def main():
     checks = []
@@ -66,7 +45,7 @@ def main():
         'engines': [{'name': 'lean4+correspondence', 'path': 'lean/', 'serves_properties': sorted(CLAIMED),
                      'kind_free_text': 'Lean 4 library (models, generated models, theorems) + Python translator, correspondence harness and falsifiers'}],
         'checks': checks,
-        'not_applicable': [{'property_id': p, 'reason': 'not yet claimed: model/check under construction (see DESIGN.md §10 build order)'}
+        'not_applicable': [{'property_id': p, 'reason': NOT_CLAIMED_REASON.get(p, 'not yet claimed: model/check under construction (see DESIGN.md §10 build order)')}
                            for p in PROPS if p not in CLAIMED],
         'notes': 'Machine-checked proof in Lean 4; see DESIGN.md. Exit codes: 0 held, 1 VIOLATION, 2 infrastructure error.',
     }
